@@ -9,6 +9,9 @@ CLAIMED = {
    text="The side-effect classes of every step are tracked in the specification; TLC checks that dry-run / measurement-only behaviours never reach workspace, write, chmod, commit (and CA/signer) effects and never panic; every emitted behaviour and a sweep over technology/VMSA/shape/snapshot/overwrite/candidate combinations runs on the real code with recording doubles, comparing what a dry run signs and a measurement-only run prints with the real run.",
    note="Trusted: TLC, the recording doubles. Signed-byte comparison only where the document has a single protobuf serialisation (one SNP measurement or TDX only).", ref="5/C15"),
 }
+CLAIMED["C13"] = dict(engine="ManifestIndex", technique="TLC closure of ManifestIndex.tla + replay of every transition on endorse.VirtualFirmware",
+   text="TLC computes the closure of reachable (manifest, files) states for a pool of images x names x overwrite (plus snapshot runs) and checks uniqueness, resolution, latest-lookup and no-clobber on the design; every transition of that closure is materialised as a real version-control head, executed with one real endorse run, projected back and the C13 predicates evaluated; random walks over a larger pool (in-memory backend and localnonvcs on disk) go beyond the bound.",
+   note="Trusted: TLC, the projection in harness/ec/manifest.go. Ill-formed hand-written manifests are outside the statement.", ref="5/C13")
 PENDING = {}
 import os
 props=[json.loads(l) for l in open('/verif/properties.jsonl')]
@@ -27,7 +30,7 @@ m={"version":1,
  "setup_cmd":"cd /verif/harness && GOFLAGS=-mod=mod GOWORK=off GOPROXY=off GOSUMDB=off GOTOOLCHAIN=local go build -tags verif -o /verif/bin/vcheck ./cmd/vcheck",
  "hooks":{"guard":"verif","enable":"go build -tags verif (the harness module replaces both repository modules with /repo and is compiled from the working tree on every check)",
    "baseline_off_cmd":"/verif/baseline_off.sh","source_commits":json.load(open('/verif/hook_commits.json')) if os.path.exists('/verif/hook_commits.json') else [],"add_only":True},
- "engines":[{"name":"EndorseCommit","path":"spec/EndorseCommit.tla","serves_properties":["C14","C15"],"kind_free_text":"TLA+ state machine of sign + commit retry loop; TLC exhaustive + behaviour emission + trace validation (spec/Trace_EndorseCommit.tla); Go binding in harness/ec"}],
+ "engines":[{"name":"ManifestIndex","path":"spec/ManifestIndex.tla","serves_properties":["C13"],"kind_free_text":"TLA+ transcription of the manifest merge rules; closure + per-transition replay; Go binding in harness/ec/manifest.go"},{"name":"EndorseCommit","path":"spec/EndorseCommit.tla","serves_properties":["C14","C15"],"kind_free_text":"TLA+ state machine of sign + commit retry loop; TLC exhaustive + behaviour emission + trace validation (spec/Trace_EndorseCommit.tla); Go binding in harness/ec"}],
  "checks":checks,"not_applicable":na,
  "notes":"All checks: ./check <id> <tier> rebuilds harness/cmd/vcheck from /repo's working tree with -tags verif. Exit 2 = infrastructure error (never a verdict)."}
 json.dump(m,open('/verif/MANIFEST.json','w'),indent=1)
